@@ -84,6 +84,18 @@ class Ctx:
         v.update(extra)
         self.violations.append(v)
 
+    def heartbeat(self, case, kind='item-unbounded', what=''):
+        """bounded progress: announce the item about to be processed.  The runner (another process - neither a signal nor a
+        thread can interrupt a regular-expression match or any other long C call) compares the CPU time this worker
+        has used since the announcement with the check's ITEM_CPU_BUDGET_S; over budget, the worker is killed and the
+        announced case is reported as a violation of kind `kind`.  heartbeat(None) withdraws the announcement."""
+        fd = getattr(self, 'hb_fd', None)
+        if fd is None:
+            return
+        data = json.dumps({'case': case, 'kind': kind, 'what': what, 'cpu': time.process_time()} if case is not None else {}, default=repr).encode() + b'\n'
+        os.pwrite(fd, data, 0)
+        os.ftruncate(fd, len(data))
+
     def inconc(self, msg):
         if len(self.inconclusive) < 20:
             self.inconclusive.append(msg)
@@ -120,13 +132,23 @@ def repo_env(extra=None):
     return env
 
 
-def run_shards(prop, tier, seed, specs, jobs, watchdog_s):
+def proc_cpu_s(pid):
+    try:
+        with open('/proc/%d/stat' % pid) as f:
+            parts = f.read().rsplit(')', 1)[1].split()
+        return (int(parts[11]) + int(parts[12])) / os.sysconf('SC_CLK_TCK')
+    except Exception:
+        return None
+
+
+def run_shards(prop, tier, seed, specs, jobs, watchdog_s, item_budget_s=None):
     """Run every spec in its own fresh interpreter (that is the 'rebuild': repo modules are imported
     from the working tree).  Returns list of (spec, result-or-None, note)."""
     tmp = tempfile.mkdtemp(prefix='verif-%s-' % prop)
     pending = list(enumerate(specs))
     running = []
     done = {}
+    last_item_poll = 0.0
     try:
         while pending or running:
             while pending and len(running) < jobs:
@@ -143,9 +165,31 @@ def run_shards(prop, tier, seed, specs, jobs, watchdog_s):
                 running.append((i, spec, p, op, lp, lf, time.time()))
             time.sleep(0.02)
             still = []
+            poll_items = item_budget_s is not None and time.time() - last_item_poll > 1.0
+            if poll_items:
+                last_item_poll = time.time()
             for item in running:
                 i, spec, p, op, lp, lf, t0 = item
                 rc = p.poll()
+                if rc is None and poll_items:
+                    # per-item CPU budget (bounded progress), decided on the worker's CPU time, not on wall-clock time
+                    try:
+                        with open(op + '.hb', 'rb') as f:
+                            hb = json.loads(f.read().decode() or '{}')
+                    except Exception:
+                        hb = {}
+                    cpu = proc_cpu_s(p.pid)
+                    if hb.get('case') is not None and cpu is not None and cpu - hb['cpu'] > item_budget_s:
+                        p.kill()
+                        p.wait()
+                        lf.close()
+                        res = {'evaluations': 1, 'sigs': [], 'samples': [], 'counters': {'workers_stopped_over_item_budget': 1}, 'sets': {},
+                               'violations': [{'kind': hb.get('kind', 'item-unbounded'), 'case': hb['case'], 'cpu_budget_s': item_budget_s,
+                                               'msg': '%s not finished after %.0f CPU seconds (budget %.0f s; the worker was stopped, the rest of its shard is lost)' % (
+                                                   hb.get('what') or 'the announced item', cpu - hb['cpu'], item_budget_s)}],
+                               'suppressed_violations': 0, 'inconclusive': [], 'wall_s': time.time() - t0}
+                        done[i] = (spec, res, '')
+                        continue
                 if rc is None:
                     if time.time() - t0 > watchdog_s:
                         p.kill()
@@ -221,7 +265,7 @@ def main(prop, tier, seed, jobs=None, replay=None):
         for i, s in enumerate(specs):
             s.setdefault('shard', i)
     watchdog = getattr(chk, 'WATCHDOG_S', {'quick': 600, 'thorough': 7200}).get(tier, 600)
-    results = run_shards(prop, tier, seed, specs, jobs, watchdog)
+    results = run_shards(prop, tier, seed, specs, jobs, watchdog, getattr(chk, 'ITEM_CPU_BUDGET_S', None))
     m = merge(results)
 
     # ---- classify violations -------------------------------------------
